@@ -35,9 +35,9 @@ class Finding:
 class Ctx:
     """Per-run context handed to a property's rule module."""
 
-    def __init__(self, prop: str, prog: Program, tier: str = "quick", seed: int = 0, write: bool = True):
+    def __init__(self, prop: str, prog: Program, tier: str = "quick", seed: int = 0, write: bool = True, t0=None):
         self.prop, self.prog, self.tier, self.seed, self.write = prop, prog, tier, seed, write
-        self.t0 = time.time()
+        self.t0 = t0 or time.time()
         self.obligations: List[dict] = []
         self.findings: List[Finding] = []
         self.samples: List[Any] = []
@@ -70,10 +70,6 @@ class Ctx:
     def require_min(self, name: str, minimum: int):
         """Instance count below the hand-confirmed minimum => fail closed (exit 2)."""
         self.minima[name] = minimum
-        got = self.counts.get(name, 0)
-        if got < minimum:
-            raise AnalysisError(f"rule instance count '{name}' = {got} below the confirmed minimum {minimum}: "
-                                f"the rule no longer matches the code it guards")
 
     def assume(self, text: str):
         if text not in self.assumptions:
@@ -99,7 +95,18 @@ class Ctx:
         return self.ob(rule, func, False, what, func=func, file=file, construct=construct, node=node, detail=detail, fail=what)
 
     # -- output -----------------------------------------------------------------------
+    def check_minima(self):
+        """Evaluated at the end: with no finding, a rule that matched fewer sites than confirmed is exit 2."""
+        if self.findings:
+            return
+        for name, minimum in self.minima.items():
+            got = self.counts.get(name, 0)
+            if got < minimum:
+                raise AnalysisError(f"rule instance count '{name}' = {got} below the confirmed minimum {minimum}: "
+                                    f"the rule no longer matches the code it guards")
+
     def finish(self) -> int:
+        self.check_minima()
         known = load_known()
         kn = {k["key"]: k for k in known.get("known", []) if k.get("property") == self.prop}
         new, listed = [], []
